@@ -224,6 +224,19 @@ class C10(PropBase):
                                     delegate="c14", kind="out:existing-equity"))
                 out.append(dict(c14.PROP.mk(rng, "existing", "small", inp, ["balance"], ["identity", "equity"],
                                             existing=[{"t": "equity", "len": 5000}]), delegate="c14", kind="out:existing-equity"))
+            # "every selected balance": which accounts are selected is decided by the configuration glue.  An explicit
+            # `export.equity.accounts = [ ]` means every account even when `report.accounts` is narrower (and a non-empty
+            # equity list wins over the global one); the real binary on C19's world, run and judged by C19's plug-in
+            import c19
+            for _ in range(4 if tier == "quick" else 40):
+                for eq in ([], None, "other"):
+                    f = c19.base_file()
+                    f["targets"] = ["balance"]
+                    f["export_targets"] = ["equity"]
+                    f["sel_global"] = list(rng.choice(c19.SELS[1:5]))
+                    f["sel_equity"] = list(rng.choice(c19.SELS[1:])) if eq == "other" else eq
+                    out.append(dict(c19.PROP.mk("equity-selector", f, {}, "files"), delegate="c19",
+                                    kind="cli:equity-selector:%s" % ("empty" if eq == [] else "absent" if eq is None else "own")))
         return out
 
     def mk(self, rng, kind):
